@@ -1041,6 +1041,11 @@ func (z *Decimal) SetFloat(x *big.Float) *Decimal {
 		z.form = inf
 		return z
 	}
+	if x.Sign() == 0 {
+		// ±0: SetInt below would drop the sign
+		z.form = zero
+		return z
+	}
 
 	// TODO(db47h): the conversion is somewhat contrieved, but we don't have
 	// access to x's mantissa. The conversion algorithm is also naive. Cmparing
